@@ -161,7 +161,7 @@ pub fn run_case(seed: u64, k: usize, thorough: bool, only: Option<(usize, usize)
         };
         out.count(&format!("x.{xname}"), 1);
         out.count("io_steps_of_x", refs.steps as u64);
-        let kinds: &[usize] = if thorough { &[0, 1, 700] } else { &[0, 3] };
+        let kinds: &[usize] = if thorough { &[0, 1, 700, 4096] } else { &[0, 3, 700] };
         for n in 0..refs.steps {
             for (ki, short) in kinds.iter().enumerate() {
                 if let Some((on, ok)) = only
